@@ -252,3 +252,48 @@ func VT_C04_CollectionStream() {
 	vt.NoLeak()
 	vt.Reach("done")
 }
+
+// A subscription opened while a write is being published and an earlier, cancelled subscription is still being
+// cleaned up: every write made after Pull returned is delivered to it exactly once, in order.
+func VT_C04_LateSubscriberAfterCancelledOne() {
+	v := NewValue(WithInitialValue(&T4{DefaultInt32: 100}))
+	gctx, gcancel := context.WithCancel(context.Background())
+	_ = v.bus.Listen(gctx)
+	gcancel() // cancelled, not yet removed from the bus
+	ctx, cancel := context.WithCancel(context.Background())
+	registered := make(chan struct{})
+	var events []int32
+	finished := make(chan struct{})
+	go func() { v.Set(&T4{DefaultInt32: 11}) }() // its publication collects the cancelled listener
+	go func() {
+		ch := v.Pull(ctx, WithBackpressure(true), WithUpdatesOnly(true))
+		close(registered)
+		defer close(finished)
+		for e := range ch {
+			events = append(events, e.Value.(*T4).DefaultInt32)
+		}
+	}()
+	<-registered
+	vt.Settle() // the concurrent write has been published (to whom it may concern)
+	_, err := v.Set(&T4{DefaultInt32: 12})
+	vt.Assert(err == nil, "write-after-subscribing-succeeds")
+	_, err = v.Set(&T4{DefaultInt32: 13})
+	vt.Assert(err == nil, "write-after-subscribing-succeeds")
+	vt.Settle()
+	cancel()
+	<-finished
+	n12, n13 := 0, 0
+	for _, x := range events {
+		if x == 12 {
+			n12++
+		}
+		if x == 13 {
+			n13++
+		}
+	}
+	vt.Assert(vt.And(n12 == 1, n13 == 1), "each-write-after-subscribing-delivered-exactly-once")
+	if len(events) >= 2 {
+		vt.Assert(vt.And(events[len(events)-2] == 12, events[len(events)-1] == 13), "later-writes-delivered-in-write-order")
+	}
+	vt.Reach("done")
+}
